@@ -36,3 +36,27 @@ def mk(kind, **kw):
     d = {"type": kind}
     d.update(kw)
     return d
+
+
+# ---- JSON-able form of tokens (attribute dicts as ordered lists) ----
+def to_json(t):
+    t = dict(t)
+    if t["type"] in ("StartTag", "EmptyTag") and isinstance(t.get("data"), dict):
+        t["data"] = [[[k[0], k[1]], v] for k, v in t["data"].items()]
+    return t
+
+
+def from_json(t):
+    from collections import OrderedDict
+    t = dict(t)
+    if t["type"] in ("StartTag", "EmptyTag"):
+        t["data"] = OrderedDict(((k[0], k[1]), v) for k, v in t["data"])
+    return t
+
+
+def walk(markup, tree="etree", fragment=False, **kw):
+    """parse + tree walker -> list of JSON-able tokens"""
+    import html5lib
+    p = html5lib.HTMLParser(tree=html5lib.getTreeBuilder(tree), **kw)
+    doc = p.parseFragment(markup) if fragment else p.parse(markup)
+    return [to_json(t) for t in html5lib.getTreeWalker(tree)(doc)]
